@@ -188,7 +188,7 @@ Proof.
   destruct (count (rp a) + count (rp b) =? -1) eqn:E; [apply Z.eqb_eq in E; lia|reflexivity].
 Qed.
 
-Lemma lt_fuel c max : c - max < Z.of_nat (fuel_of c max).
+Lemma lt_fuel c max n : c - max < Z.of_nat (fuel_of c max n).
 Proof. unfold fuel_of. lia. Qed.
 
 Lemma merge_split_items_l : forall max a b, 1 <= max -> size_ok a -> size_ok_opt b ->
@@ -199,7 +199,7 @@ Proof.
   pose proof (merged_size_ok a b Ha Hb) as Hm. unfold size_ok in Hm.
   destruct (max =? 0) eqn:E0; [apply Z.eqb_eq in E0; lia|].
   rewrite Hm, <- T_count.
-  destruct (split_loop_items (fuel_of (T (rp (merged w_unit Items a b))) max) max (rp (merged w_unit Items a b)) [] Hmax) as [ds [last H]].
+  destruct (split_loop_items (fuel_of (T (rp (merged w_unit Items a b))) max (length (items_of (rp (merged w_unit Items a b))))) max (rp (merged w_unit Items a b)) [] Hmax) as [ds [last H]].
   { apply lt_fuel. }
   exists ds, last. exact H.
 Qed.
@@ -259,7 +259,7 @@ Proof.
   - rewrite inner_cap_items.
     assert (Hh : metric_size Items {| mid := 0; mkind := mkind m; mhdr := 0; mdhdr := 0; mpts := [] |} = 0).
     { unfold metric_size; cbn [mkind]. rewrite Ek. reflexivity. }
-    rewrite Hh, Z.sub_0_r.
+    rewrite Hh, Z.sub_0_r. cbn [delta]. replace (cap - (cap - cap - 0)) with cap by lia.
     destruct (walk Items (point_size Items) None (fun _ => true) (mpts m) cap 0) as [[d k] rm] eqn:E.
     destruct (walk_items (point_size Items) None (fun _ => true) point_size_items_nonneg (fun _ => eq_refl)
                 _ _ _ _ _ _ (Z.lt_le_incl _ _ H0) E) as [Hrm [Hd Hk]].
@@ -369,7 +369,7 @@ Proof.
   pose proof (mmerged_size_ok a b Ha Hb) as Hm. unfold msize_ok in Hm.
   destruct (max =? 0) eqn:E0; [apply Z.eqb_eq in E0; lia|].
   rewrite Hm, <- MT_count.
-  destruct (msplit_loop_items (fuel_of (MT (mrp (mmerged Items a b))) max) max (mrp (mmerged Items a b)) [] Hmax) as [ds [last H]].
+  destruct (msplit_loop_items (fuel_of (MT (mrp (mmerged Items a b))) max (length (mpoints_of (mrp (mmerged Items a b))))) max (mrp (mmerged Items a b)) [] Hmax) as [ds [last H]].
   { apply lt_fuel. }
   exists ds, last. exact H.
 Qed.
